@@ -138,6 +138,8 @@ nni_id_map_sys_fini(void)
 	nni_mtx_lock(&id_reg_mtx);
 	for (int i = 0; i < id_reg_num; i++) {
 		if (id_reg_map[i] != NULL) {
+			// a later nng_init must register the map again
+			id_reg_map[i]->id_registered = false;
 			nni_id_map_fini(id_reg_map[i]);
 			id_reg_map[i] = NULL;
 		}
